@@ -246,6 +246,11 @@ impl RemoteStateActor {
         shutdown_token: CancellationToken,
     ) -> (EndpointId, Vec<RemoteStateMessage>) {
         trace!("actor started");
+        #[cfg(iroh_verif)]
+        verif_hooks::emit(verif_hooks::ActorEvent::Started {
+            remote: self.state.endpoint_id,
+            initial: initial_msgs.len(),
+        });
         for msg in initial_msgs {
             self.handle_message(msg).await;
         }
@@ -326,6 +331,10 @@ impl RemoteStateActor {
                 _ = &mut idle_timeout => {
                     if self.is_idle(&inbox) {
                         trace!("idle timeout expired and still idle: terminate actor");
+                        #[cfg(iroh_verif)]
+                        verif_hooks::emit(verif_hooks::ActorEvent::IdleExit {
+                            remote: self.state.endpoint_id,
+                        });
                         break;
                     } else {
                         // Seems like we weren't really idle, so we reset
@@ -335,6 +344,10 @@ impl RemoteStateActor {
             }
         }
 
+        #[cfg(iroh_verif)]
+        verif_hooks::emit(verif_hooks::ActorEvent::Closing {
+            remote: self.state.endpoint_id,
+        });
         inbox.close();
         // There might be a race between checking `inbox.is_empty()` and `inbox.close()`,
         // so we pull out all messages that are left over.
@@ -342,6 +355,11 @@ impl RemoteStateActor {
         inbox.recv_many(&mut leftover_msgs, inbox.len()).await;
 
         trace!("actor terminating");
+        #[cfg(iroh_verif)]
+        verif_hooks::emit(verif_hooks::ActorEvent::Stopped {
+            remote: self.state.endpoint_id,
+            leftover: leftover_msgs.len(),
+        });
         (self.state.endpoint_id, leftover_msgs)
     }
 
@@ -358,6 +376,13 @@ impl RemoteStateActor {
     #[instrument(skip(self))]
     async fn handle_message(&mut self, msg: RemoteStateMessage) {
         // trace!("handling message");
+        #[cfg(iroh_verif)]
+        let verif_msg = verif_hooks::describe(&msg);
+        #[cfg(iroh_verif)]
+        verif_hooks::emit(verif_hooks::ActorEvent::Handling {
+            remote: self.state.endpoint_id,
+            msg: verif_msg.clone(),
+        });
         match msg {
             RemoteStateMessage::SendDatagram(sender, transmit) => {
                 self.state.handle_msg_send_datagram(sender, transmit).await;
@@ -380,6 +405,11 @@ impl RemoteStateActor {
                 self.handle_msg_network_change(is_major);
             }
         }
+        #[cfg(iroh_verif)]
+        verif_hooks::emit(verif_hooks::ActorEvent::Handled {
+            remote: self.state.endpoint_id,
+            msg: verif_msg,
+        });
     }
 
     /// Handles [`RemoteStateMessage::AddConnection`].
@@ -1547,7 +1577,7 @@ pub mod verif_hooks {
     use tokio::sync::oneshot;
 
     use super::{
-        RemoteStateActor, Source, now_or_never,
+        RemoteStateActor, RemoteStateMessage, Source, now_or_never,
         path_state::verif_hooks::{self as path_hooks, Status},
     };
     use crate::{
@@ -1555,6 +1585,105 @@ pub mod verif_hooks {
         endpoint::DirectAddr,
         socket::{biased_rtt_path_selector::BiasedRttPathSelector, transports},
     };
+
+    /// What a [`RemoteStateMessage`] is, without its reply channel.
+    #[derive(Debug, Clone, PartialEq, Eq)]
+    pub enum MsgInfo {
+        /// `SendDatagram`
+        SendDatagram,
+        /// `AddConnection`
+        AddConnection,
+        /// `ResolveRemote` with these addresses.
+        ResolveRemote(BTreeSet<TransportAddr>),
+        /// `RemoteInfo`
+        RemoteInfo,
+        /// `NetworkChange`
+        NetworkChange,
+    }
+
+    /// Life-cycle events of a spawned `RemoteStateActor` (its `run` future).
+    #[derive(Debug, Clone, PartialEq, Eq)]
+    pub enum ActorEvent {
+        /// `run` started with this many initial (handed-over) messages.
+        Started {
+            /// The remote the actor serves.
+            remote: EndpointId,
+            /// `initial_msgs.len()`
+            initial: usize,
+        },
+        /// `handle_message` is about to handle this message.
+        Handling {
+            /// The remote the actor serves.
+            remote: EndpointId,
+            /// The message.
+            msg: MsgInfo,
+        },
+        /// `handle_message` returned.
+        Handled {
+            /// The remote the actor serves.
+            remote: EndpointId,
+            /// The message.
+            msg: MsgInfo,
+        },
+        /// The idle timeout expired with `is_idle()` true: the loop is left.
+        IdleExit {
+            /// The remote the actor serves.
+            remote: EndpointId,
+        },
+        /// The loop was left (for whatever reason); `inbox.close()` is the next statement.
+        Closing {
+            /// The remote the actor serves.
+            remote: EndpointId,
+        },
+        /// The inbox was closed and drained; the task returns this many leftover messages.
+        Stopped {
+            /// The remote the actor serves.
+            remote: EndpointId,
+            /// `leftover_msgs.len()`
+            leftover: usize,
+        },
+    }
+
+    /// Observer of [`ActorEvent`]s.
+    pub type ActorObserver = Box<dyn FnMut(&ActorEvent)>;
+
+    thread_local! {
+        static OBSERVER: std::cell::RefCell<Option<ActorObserver>> =
+            const { std::cell::RefCell::new(None) };
+    }
+
+    /// Installs (or removes) the observer called, on this thread, at every life-cycle point
+    /// of every `RemoteStateActor` polled on this thread.  The observer runs inside the
+    /// actor's task, so what it does happens exactly at that point of the actor's code.
+    pub fn set_observer(observer: Option<ActorObserver>) {
+        OBSERVER.with(|o| *o.borrow_mut() = observer);
+    }
+
+    /// Reports a life-cycle point; a no-op unless this thread installed an observer.
+    pub(super) fn emit(event: ActorEvent) {
+        // The observer is taken out while it runs, so events it causes itself are not reported.
+        let observer = OBSERVER.with(|o| o.borrow_mut().take());
+        if let Some(mut observer) = observer {
+            observer(&event);
+            OBSERVER.with(|o| {
+                let mut slot = o.borrow_mut();
+                if slot.is_none() {
+                    *slot = Some(observer);
+                }
+            });
+        }
+    }
+
+    /// The [`MsgInfo`] of a message.
+    pub(super) fn describe(msg: &RemoteStateMessage) -> MsgInfo {
+        match msg {
+            RemoteStateMessage::SendDatagram(..) => MsgInfo::SendDatagram,
+            RemoteStateMessage::AddConnection(..) => MsgInfo::AddConnection,
+            RemoteStateMessage::ResolveRemote(addrs, _) => MsgInfo::ResolveRemote(addrs.clone()),
+            RemoteStateMessage::RemoteInfo(_) => MsgInfo::RemoteInfo,
+            RemoteStateMessage::NetworkChange { .. } => MsgInfo::NetworkChange,
+        }
+    }
 
     /// What one poll of the address lookup stream did (the `address_lookup_stream` arm of
     /// the actor's `select!`, run once).
